@@ -58,7 +58,7 @@ func (e *Exec) global(g *ssa.Global) *Obj {
 		// a global first touched after initialisation: remember its pristine value
 		e.initSaved[o] = o.V
 	}
-	if g.Pkg != nil && !e.inited[g.Pkg] && !strings.HasPrefix(g.Name(), "init$") {
+	if g.Pkg != nil && !e.inited[g.Pkg] && !strings.HasPrefix(g.Name(), "init$") && e.pkgFromSource(g.Pkg.Pkg.Path()) {
 		e.runInit(g.Pkg)
 		if e.initDone {
 			e.initSaved[o] = o.V
